@@ -18,6 +18,8 @@
 (*         denotation of a tree is a dense N-d array (row-major flat       *)
 (*         sequence + shape); every read of the Encoding API must equal    *)
 (*         the same read of the denotation.                                *)
+(*         Part 2b judges 1-D run-length encodings built on stored data of *)
+(*         any integer dtype at run level.                                 *)
 (* Part 3  VoxelGrid: index <-> point maps, volume, binvox round trip.     *)
 (* Part 4  the batch validator (named clauses).                            *)
 (*                                                                         *)
@@ -290,6 +292,57 @@ ReadClause(D, q) ==
            [] OTHER -> "unknown_read"
 
 (***************************************************************************)
+(* Part 2b.  One-dimensional run-length encodings at run level             *)
+(* RunLengthEncoding / BinaryRunLengthEncoding objects built directly on   *)
+(* stored run-length data `e` (of any integer dtype, runs of any length)   *)
+(* and viewed through flip / reshape / flat.  The denotation is the run    *)
+(* list of `e`; every read is judged on runs, so encodings whose merged    *)
+(* runs or total length exceed the stored dtype cost nothing.              *)
+(***************************************************************************)
+BaseRuns(c) == IF c.kind = "rle" THEN RleRuns(c.e) ELSE BrleRuns(c.e)
+\* <<runs, shape>> after the views: flip(0) of a 1-D array reverses it, reshape / flat keep the
+\* row-major order
+RECURSIVE View1(_, _, _, _)
+View1(runs, shape, v, k) ==
+    IF k > Len(v) THEN <<runs, shape>>
+    ELSE IF v[k].op = "flip" THEN View1(Rev(runs), shape, v, k + 1)
+    ELSE IF v[k].op = "reshape" THEN View1(runs, v[k].shape, v, k + 1)
+    ELSE View1(runs, <<Total(runs)>>, v, k + 1)
+RECURSIVE SumRuns(_)
+SumRuns(cr) == IF Len(cr) = 0 THEN 0 ELSE cr[1][1] * cr[1][2] + SumRuns(Tail(cr))
+Read1Clause(runs, shape, q) ==
+    IF q.exc # "" THEN "raised_" \o q.exc
+    ELSE CASE q.r = "dense" ->
+                IF q.shape # shape THEN "dense_shape"
+                ELSE IF ProjRuns(q.res) # runs \/ q.res.n # Total(runs) THEN "dense_values" ELSE "ok"
+           [] q.r = "shape" -> IF q.v # shape THEN "shape" ELSE "ok"
+           [] q.r = "size" -> IF q.v # Total(runs) THEN "size" ELSE "ok"
+           [] q.r = "sum" -> IF q.v # SumRuns(runs) THEN "sum" ELSE "ok"
+           [] q.r = "is_empty" -> IF (q.v = 1) # AllZero(runs) THEN "is_empty" ELSE "ok"
+           [] q.r = "sparse" ->          \* 1-D only; (index, value) list compressed as in rle_to_sparse
+                IF q.ni # q.nv THEN "sparse_values_one_per_index"
+                ELSE IF q.tri # SparseOf(runs, 0) THEN "sparse_indices_values_of_nonzero_elements" ELSE "ok"
+           [] q.r \in {"gather_nd", "gather", "get_value"} ->
+                IF Len(q.v) # Len(q.arg) THEN "gather_one_value_per_index"
+                ELSE IF \E k \in 1..Len(q.arg) : q.v[k] # At(runs, Ravel(q.arg[k], shape))
+                THEN "gather_equals_dense_at_indices" ELSE "ok"
+           [] q.r = "mask" ->
+                IF ProjRuns(q.res) # Canon(MaskRuns(runs, Canon(q.mr))) THEN "mask_equals_dense_under_mask" ELSE "ok"
+           [] q.r = "stripped" ->        \* 1-D only
+                IF AllZero(runs) THEN
+                     (IF q.res.n # 0 THEN "stripped_of_empty_is_empty"
+                      ELSE IF q.pad[1][1] + q.pad[1][2] # Total(runs) THEN "stripped_padding_of_empty_covers_axis" ELSE "ok")
+                ELSE IF ProjRuns(q.res) # StripRuns(runs) THEN "stripped_values"
+                ELSE IF q.pad # <<<<LeadZeros(runs), TrailZeros(runs)>>>> THEN "stripped_padding" ELSE "ok"
+           [] q.r = "rld" ->
+                IF ~RleWF(q.v, q.max) THEN "rle_counts_within_dtype_max"
+                ELSE IF RleRuns(q.v) # runs THEN "run_length_data_denotes_dense" ELSE "ok"
+           [] q.r = "brld" ->
+                IF ~BrleWF(q.v, q.max) THEN "brle_counts_within_dtype_max"
+                ELSE IF BrleRuns(q.v) # runs THEN "binary_run_length_data_denotes_dense" ELSE "ok"
+           [] OTHER -> "unknown_read"
+
+(***************************************************************************)
 (* Part 3.  VoxelGrid                                                      *)
 (* Matrices are recorded multiplied by 4 (entries are quarter integers).   *)
 (***************************************************************************)
@@ -331,6 +384,19 @@ OkGridBinvoxPoints(c) ==
             \/ Len(c.rpoints4) # Cardinality(FilledIx(D)) THEN "binvox_filled_cells_keep_their_position"
     ELSE "ok"
 
+\* a grid exported, loaded (the loaded grid stores uint8 run-length data whose runs are split at
+\* 255), queried, exported again and loaded again; the data are described by runs `dr` of the
+\* row-major array, recorded matrices / is_filled answers come back as runs of the same order
+OkGridReload(c) ==
+    LET runs == Canon(c.dr) IN
+    IF c.rshape2 # c.shape \/ c.rshape3 # c.shape THEN "binvox_shape"
+    ELSE IF ProjRuns(c.m2) # runs THEN "binvox_filled_cells"
+    ELSE IF c.count2 # SumRuns(runs) THEN "loaded_grid_filled_count"
+    ELSE IF ProjRuns(c.filled2) # runs THEN "loaded_grid_is_filled_equals_dense_at_cell"
+    ELSE IF ProjRuns(c.m3) # runs THEN "binvox_reexport_of_loaded_grid_keeps_filled_cells"
+    ELSE IF c.rM4 # c.M4 \/ c.rt4 # c.t4 THEN "binvox_transform"
+    ELSE "ok"
+
 (***************************************************************************)
 (* Part 4.  Batch validator                                                *)
 (***************************************************************************)
@@ -360,6 +426,7 @@ Clause(c) ==
       [] c.fn = "grid_volume" -> OkGridVolume(c)
       [] c.fn = "grid_binvox" -> OkGridBinvox(c)
       [] c.fn = "grid_binvox_points" -> OkGridBinvoxPoints(c)
+      [] c.fn = "grid_reload" -> OkGridReload(c)
       [] OTHER -> "unknown_function"
 
 FnClause(c) ==
@@ -376,10 +443,18 @@ ReportEnc(c) ==
              LET cl == ReadClause(D, c.reads[q]) IN
              IF cl # "ok" THEN PrintT(<<"REJECT", c.id + q, cl>>) ELSE TRUE
 
+ReportEnc1(c) ==
+    IF c.exc # "" THEN PrintT(<<"REJECT", c.id, "build_raised_" \o c.exc>>)
+    ELSE LET D == View1(BaseRuns(c), <<Total(BaseRuns(c))>>, c.view, 1) IN
+         \A q \in 1..Len(c.reads) :
+             LET cl == Read1Clause(D[1], D[2], c.reads[q]) IN
+             IF cl # "ok" THEN PrintT(<<"REJECT", c.id + q, cl>>) ELSE TRUE
+
 Init == i = 1
 Next == i < Len(Cases) /\ i' = i + 1
 Report == LET c == Cases[i] IN
           IF c.fn = "enc" THEN ReportEnc(c)
+          ELSE IF c.fn = "enc1d" THEN ReportEnc1(c)
           ELSE LET cl == FnClause(c) IN IF cl # "ok" THEN PrintT(<<"REJECT", c.id, cl>>) ELSE TRUE
 
 \* internal sanity of the reference, evaluated on the recorded inputs themselves:
